@@ -11,7 +11,7 @@ from vlib.simharness import Harness, RefSim, dec_ref, enc_obs, enc_ref
 ID = "C11"
 RULE = ("Hypothesis (program, drive, subscribe) triples: C02-style handler programs (priorities 1..9, no illegal "
         "requests) whose handlers make observations with literal values to a SimCounter, SimTally, SimWeightedTally "
-        "and SimPersistent created in construct_model (default event types, and a custom EventType via listen_to for "
+        "and SimPersistent created in construct_model of a plain model or of a model class that defines __len__ (default event types, and a custom EventType via listen_to for "
         "the tally); replications with warm-up before / exactly on / between / after event times and beyond the end; "
         "drive in {start, steps, stop()-pause, bounded runs}, optionally as a later replication on the same simulator and model, optionally with a second model (own simulator, same statistic keys) initialised/run in between; optionally a subscriber on every statistic for every "
         "StatEvents type. Oracle: ordinary Counter/Tally/WeightedTally/TimestampWeightedTally fed exactly the "
@@ -90,6 +90,7 @@ def strategy(tier):
         "subscribe": st.booleans(),
         "reinit": st.sampled_from([None, None, None, "ended", "init", "bounded"]),
         "other_model": st.sampled_from([None, None, "ended", "init"]),
+        "container_model": st.sampled_from([False, False, True]),
     })
 
 
@@ -239,6 +240,10 @@ def run_case(case):
 
     # ---- SUT
     published = {"n": 0, "bad": []}
+    if case.get("container_model"):
+        # the model class also defines __len__ (0 while the model is built): the model object is falsy
+        prog = dict(prog, container_model=True)
+        out.label("model-with-__len__")
     h = Harness(prog)
     _install(h.model, case["subscribe"], published)
     try:
